@@ -111,3 +111,13 @@ Fixpoint wblock (nprev : nat) (st : wstate) (evs : list (list (bytes * wcell) * 
   end.
 Definition check_window (blocks : list (list (list (bytes * wcell) * list (bytes * bytes)))) : list nat :=
   idx_false (map (wblock O []) blocks) 0.
+
+(* 9. the range entry the open segment holds for a block whose column received numbers and numeric strings
+   (read after the real flush): block_index; None = the block has no range entry for the column *)
+Definition block_index_ok (c : list rcell * option numbers) : bool :=
+  match block_index (fst c), snd c with
+  | Some r, Some o => numbers_eqb r o
+  | None, None => true
+  | _, _ => false
+  end.
+Definition check_block_index (cs : list (list rcell * option numbers)) : list nat := idx_false (map block_index_ok cs) 0.
